@@ -141,14 +141,16 @@ theorem aquarium (h w : Nat) (hh : 1 ≤ h) (hw : 1 ≤ w) (hdh : DecimalOk h) (
       rw [hcc] at ht2
       simp only [List.cons_append, List.map_cons] at ht2 ⊢
       rw [encodeArray_dim_of_int, ht2]
-  refine ⟨t1 ++ t2, ?_, ?_, ?_⟩
+  refine ⟨t1 ++ [47] ++ t2, ?_, ?_, ?_⟩
   · unfold aquariumProblemToUrl
     rw [hb]
     simp only [Outcome.bind, henc, hxs, hnone]
     simp [tail, aquariumName, List.append_assoc]
   · rw [puzzLinkPrefix_eq]
     exact getPuzzleInfo_frame defaultPrefix aquariumName w h _ (Or.inl rfl) aquariumName_ok hdw hdh
-  · have hbd := C16Bits.pzpr_rooms_borders h w hh hw rooms hv false false t1 hser t2
+  · have hbd := C16Bits.pzpr_rooms_borders h w hh hw rooms hv false false t1 hser (47 :: t2)
+    have hcat : t1 ++ [47] ++ t2 = t1 ++ 47 :: t2 := by simp
+    rw [hcat]
     -- number16 over the outside cells
     have hlen : ((clueCol ++ clueRow).map PyVal.int).length = (clueCol ++ clueRow).length := by simp
     have hk : ∃ k, seqSer (ser (.oneOf [.spaces (.int (-1)) 15, .hexInt]) ⟨h, w⟩) (clueCol ++ clueRow).length
